@@ -111,7 +111,13 @@ def run(ctx):
                 continue
             ctx.check('C04.W2', ff.name in ('Plan::EdgeFinished',),
                       ff.name, 'outputs_ready_=true:site', ff.where(e), 'outputs_ready_ = true in %s' % ff.name)
-    ctx.floor('C04.W2', 3)
+    # a node's dirty flag is decided by the scan and revoked only by the restat pruning (Plan::CleanNode);
+    # nobody else may declare a node clean (readiness of consumers is derived from it on a re-scan)
+    who_may_call(ctx, 'C04.W2', 'Node::set_dirty', {'Plan::CleanNode': 'restat pruning', 'DependencyScan::RecomputeNodeDirty': 'scan verdict'},
+                 'dirty flag of a node')
+    who_may_write(ctx, 'C04.W2', 'Node::dirty_', {'Node::Node': 'init', 'Node::ResetState': 'State::Reset', 'Node::set_dirty': 'setter',
+                                                 'Node::MarkDirty': 'scan'}, 'dirty flag of a node')
+    ctx.floor('C04.W2', 5)
     ctx.table('C04.W2.writers', allowed)
 
     # ---- W3: spawn sites ----------------------------------------------------------------------------
